@@ -52,6 +52,23 @@ CHECKS["C04"]["text"] += (" In addition the hook traces of these executions are 
                           "NoMonotoneGrowth, Balanced, QuiescentIsClean, NoInternalFault evaluated at every event).")
 CHECKS["C04"]["technique"] = "TLA+ abstract machine as oracle (spec->impl replay) + trace validation of VM hook events against KotoVm.tla"
 
+CHECKS["C05"] = dict(
+    category="model_checking",
+    text="ChunkCfg.tla is an abstract interpreter over REAL compiled chunks (decoded with the public InstructionReader): TLC "
+         "explores every path of every function's control-flow graph, including the exceptional edges from each instruction "
+         "inside a try block to its catch point, with state (ip, sequence/string builder depths, catch-point stack). "
+         "Invariants: OnBoundary (every reached ip starts an instruction inside its own function; falling off the end is a "
+         "violation), OperandsInRange (registers < NewFrame count, constants exist with the right kind, jump targets on "
+         "boundaries), NoBrokenBuilder, BalancedAtReturn, FrameFirst, and same stack shape at every join. Inputs: the corpus, "
+         "seeded programs of all KotoCore families, size-scaled programs around every encoding limit (must be rejected by "
+         "the compiler or run to the known result), thorough: the corpus' token neighbourhood. Determinism: every text is "
+         "compiled twice (other process, other order) and must hash equal. Run time: corpus executions are validated against "
+         "KotoVm.tla (NoInternalFault).",
+    design_ref="DESIGN.md §5 C05",
+    note="Trusted: InstructionReader as the definition of the format; may-throw is over-approximated. Known finding RL1 "
+         "(register limit reported at run time) is pinned.",
+    technique="TLC exploration of the control-flow graph of real compiled chunks (ChunkCfg.tla) + scale sweep + double compilation",
+    engine="chunkcfg")
 CHECKS["C07"] = dict(
     category="model_checking",
     text="Session.tla specifies one embedding instance as a state machine over its completed effects; TLC enumerates every "
@@ -139,6 +156,8 @@ def main():
             "add_only": True,
         },
         "engines": [
+            {"name": "chunkcfg", "path": "spec/ChunkCfg.tla", "serves_properties": ["C05"],
+             "kind_free_text": "TLA+ abstract interpreter whose input is real decoded bytecode; TLC explores every path"},
             {"name": "kotovm", "path": "spec/KotoVm.tla", "serves_properties": ["C04", "C07", "C08"],
              "kind_free_text": "TLA+ specification of the VM's control state; hook events of real executions are folded through its actions (Trace_KotoVm.tla)"},
             {"name": "session", "path": "spec/Session.tla", "serves_properties": ["C07"],
